@@ -144,7 +144,9 @@ def eof(ctx):
     return ""
 
 
-newline = Parser.regex(r"\s*\n|\s*;[^\n]*", skip_whitespace_before=False)
+# Matched case-sensitively (there are no letters) so that '\s' keeps meaning any Unicode white space,
+# like Context.skip_whitespace
+newline = Parser.regex(r"\s*\n|\s*;[^\n]*", skip_whitespace_before=False, case_sensitive=True)
 comma = Parser.literal(",")
 opening_parenthesis = Parser.literal("(")
 closing_parenthesis = Parser.literal(")")
